@@ -31,6 +31,8 @@ def gen_scaffolds(rng, bpt, fasta_backed=True, n=None, hap_prefix=None, edge_gap
             name = f"{hap_prefix}_scaffold_{k + 1}"
         else:
             name = rng.choice(["SCAFFOLD_", "scaffold_", "ctg", "s"]) + str(k + 1)
+            if fasta_backed and edge_gaps_ok and rng.random() < 0.04:
+                name = "#" + name  # legal FASTA name that AGP reads as a comment
         texels = rng.choice([1, 3, 4, 6, 8, 10, 14, 20, 30, 45])
         target = max(1, int(texels * bpt + rng.randint(-int(bpt) // 2, int(bpt) // 2)))
         if rng.random() < 0.1:
@@ -69,7 +71,7 @@ def scaffold_length(sc):
     return sum((r[1] if r[0] == "G" else r[3] - r[2] + 1) for r in sc["rows"])
 
 
-def render_fasta_for(rng, scaffolds, width=None, crlf=False):
+def render_fasta_for(rng, scaffolds, width=None, crlf=False, void_record=False):
     """FASTA text whose index-derived assembly is exactly `scaffolds`
     (FASTA-backed ones): ACGT for fragments, N for gaps; fragment boundaries
     are made unambiguous by never letting a fragment be followed directly by
@@ -88,6 +90,8 @@ def render_fasta_for(rng, scaffolds, width=None, crlf=False):
         out.write(">" + sc["name"] + nl)
         for j in range(0, len(s), width):
             out.write(s[j:j + width] + nl)
+    if void_record:
+        out.write(">void_record no residues" + ("\r\n" if crlf else "\n"))
     return out.getvalue()
 
 
@@ -352,7 +356,7 @@ def gen_workload(rng, fasta_backed=True, tagging=True, haps=None, rich_tags=Fals
         "pretext_agp": render_pretext_agp(m),
     }
     if fasta_backed:
-        w["fasta"] = render_fasta_for(rng, scaffolds, crlf=rng.random() < 0.15)
+        w["fasta"] = render_fasta_for(rng, scaffolds, crlf=rng.random() < 0.15, void_record=rng.random() < 0.06)
     return w
 
 
